@@ -28,12 +28,20 @@ def verdicts(files, root, tag):
         n, incs = malsrc.antlr_errors(os.path.join(d, f))
         if n: bad = True; break
         todo += incs
+    comp = MalCompiler()
     try:
-        out = MalCompiler().compile(os.path.join(d, root)); raised = None
+        out = comp.compile(os.path.join(d, root)); raised = None
     except RecursionError:
         out, raised = None, 'RecursionError'
     except Exception as e:
         out, raised = None, type(e).__name__
+    if raised is not None:
+        # the same compiler object asked again must not hand out a specification assembled from what it kept
+        try:
+            out2 = comp.compile(os.path.join(d, root))
+            out, raised = out2, None
+        except Exception:
+            pass
     return bad, raised, out
 
 def run(seed, tier, lean) -> Result:
